@@ -44,6 +44,7 @@ Alias(n, refs)   == Ent("alias", n, "", refs, <<>>)
 IFunc(n, to)     == Ent("ifunc", n, "", <<Ref("g.resolver", to)>>, <<>>)
 Decl(n, refs)    == Ent("func", n, "decl", refs, <<>>)
 Def(n, refs, ls) == Ent("func", n, "def", refs, ls)
+DeclP(n, refs, ls) == Ent("func", n, "decl", refs, ls)         \* a declaration with (named or unnamed) parameters
 Resolver(n)      == Ent("func", n, "resolver", <<>>, <<>>)
 Attr(n)          == Ent("attr", n, "nounwind", <<>>, <<>>)
 AttrB(n, body)   == Ent("attr", n, body, <<>>, <<>>)      \* body: the attributes of the group, e.g. "noinline cold"
@@ -203,6 +204,10 @@ Patterns == <<
   << Global("", <<Ref("m.attach", "2")>>), Def("", <<Ref("a.func", "7")>>, << Loc("entry", "block", <<>>) >>),
      Global("g", <<Ref("g.init", "@1")>>), Global("", <<Ref("g.init", "@0")>>), Global("", <<Ref("g.init", "@2")>>),
      Attr("7"), Attr("1"), NamedMd("m", <<Ref("m.named", "10")>>), Md("2", <<>>), Md("10", <<Ref("g.mdvalue", "@1")>>) >>,
+  \* 29: declarations and a definition with named and unnamed parameters (parameter names are locals of their function only)
+  << DeclP("f", <<>>, << Loc("x", "param", <<>>), Loc("", "param", <<>>), Loc("y", "param", <<>>) >>),
+     DeclP("g", <<>>, << Loc("x", "param", <<>>), Loc("y", "param", <<>>) >>),
+     Def("h", <<>>, << Loc("x", "param", <<>>), Loc("y", "param", <<>>), Loc("entry", "block", <<>>), Loc("a", "inst", <<Ref("l.operand", "x"), Ref("l.operand", "y")>>) >>) >>,
   \* 27: blockaddress constants inside metadata nodes, next to ones in a global and in a function (all join the same fix-up list)
   << Md("1", <<RefX("l.baddr", "f", "bb")>>), Global("g", <<RefX("l.baddr", "f", "bb")>>), Md("0", <<RefX("l.baddr", "h", "bb"), Ref("m.tuple", "1")>>),
      Def("f", <<>>, << Loc("entry", "block", <<Ref("l.target", "bb")>>), Loc("bb", "block", <<>>), Loc("x", "inst", <<RefX("l.baddr", "h", "bb")>>) >>),
